@@ -263,7 +263,7 @@ func init() {
 
 	// K3: retry survives non-restarting calls
 	eng.Register(&eng.Scenario{
-		Name: "keyed-retry", Props: []string{"C07"}, ObsNames: stdObs,
+		Name: "keyed-retry", Props: []string{"C07"}, ObsNames: stdObs, RacePB: 2,
 		Doc:   "Keyed with retry back-off, with/without release delay (choice): key a fails on its first run; around the failure and the retry timer every word of length 2 over {SetKey(a,false), GetKey(a), SetKey(b,true), SyncKeys([a],false), GetKeys, RemoveKey(a)}; at quiescence, if key a is still in the set it must be running again",
 		Quick: eng.Bounds{PB: 2}, Thorough: eng.Bounds{PB: 3},
 		Body: func() {
@@ -311,7 +311,7 @@ func init() {
 		},
 	})
 	eng.Register(&eng.Scenario{
-		Name: "keyed-retry-overlap", Props: []string{"C07"}, ObsNames: stdObs,
+		Name: "keyed-retry-overlap", Props: []string{"C07"}, ObsNames: stdObs, RacePB: 2,
 		Doc:   "Keyed with retry back-off: key a fails on its first two runs; concurrently a controller issues {RestartRoutine(a), SetContext(fresh,true), ResetRoutine(a)} (choice) while retry timers fire freely; overlap oracle",
 		Quick: eng.Bounds{PB: 2}, Thorough: eng.Bounds{PB: 3},
 		Body: func() {
